@@ -18,14 +18,17 @@ META = {
              "Theorem rcompare_is_tcompare_partial: for all well-formed representations whose left operand holds no '.'/2 as a Str cell, rcompare a b = tcompare (denote a) (denote b) "
              "-- so 'strings and partial strings are ordered as the lists they denote' is a theorem about a mirror of the code; rcompare_heads_first_is_tcompare: with the Str-'.'/2 "
              "against Lis arm visiting heads first it holds for EVERY pair; rcompare_str_dot_against_lis_deviates: that arm as written (tail pair popped first) is not the standard order. "
-             "The mirror is run in Coq on the representation every construction path of the differential check produces and must give the implementation's answers."),
+             "The mirror is run in Coq on the representation every construction path of the differential check produces and must give the implementation's answers. "
+             "A scan family guards the visited set (tabu_list) of ParallelHeapIter, which the tree-shaped mirror does not model: list pairs and string pairs must never share a key "
+             "(cell index vs byte offset; repaired in /repo e6d801d, key tabu-collision:lis-cells-vs-pstr-byte-offsets)."),
     "note": ("Trusted: Coq kernel + vm_compute; tcompare is a reference model; rcompare (Repr.v) is a hand-written arm-by-arm mirror of ParallelHeapIter::next / "
              "compare_term_test over tree-shaped representation terms: addresses, sharing and cycles (the tabu list) and cells without an order category are not modelled, "
              "floats/integers/rationals/variables compare as in the reference; which representation a construction path produces is assumed (literal/suffix/atom_chars -> PStr "
              "segments with NULs as cons cells, partial_string/3 -> PStr + tail, '.'(H,T) / =.. / [..] -> Lis, other compounds -> Str), not observed on the heap. "
              "rcompare_is_tcompare_partial is PARTIAL: it excludes a left operand containing '.'/2 as a Str cell, because the code's Str-'.'/2 against Lis arm pushes the head pair "
              "before the tail pair (tails compared first; proved to deviate: rcompare_str_dot_against_lis_deviates); no path was found that builds such a cell (reader, =.., functor/3, "
-             "copy_term/2, assertz/1, findall/3, clause/2 build Lis), so this is a latent defect without a failing query. The variable order is not predicted: "
+             "copy_term/2, assertz/1, findall/3, clause/2 build Lis), so this is a latent defect without a failing query. The visited-set scan is purely differential and layout-driven: it was validated "
+             "against a build of the tree before e6d801d (reports the key at paddings 19936..19968) and finds nothing after it. The variable order is not predicted: "
              "the order of the (at most three) variables of a query is observed by compare/3 in the same query, must be a strict total order, and the "
              "variables are numbered accordingly in the model. No axioms (all theorems closed under the global context)."),
     "technique": ("Coq proof (tcompare_refl/antisym/trans/le_trans/total, eq_iff_identical, six_operators_consistent, string_order_is_codepoint_lex) over a reference model, "
@@ -472,6 +475,81 @@ def reprs(kinds):
 HEAD = ":- use_module(library(iso_ext)).\n"
 
 
+# ------------------------------------------------------------------ visited-set (tabu_list) key collisions
+# ParallelHeapIter remembers visited pairs in tabu_list.  When Lis/Str arms recorded CELL indices and PStrLoc arms BYTE offsets, an equal
+# Lis/Lis pair at cells (la+2m, lb+2m) made a later PStrLoc pair at byte offsets (la+2m, lb+2m) count as visited: two DIFFERENT strings
+# compared equal (fixed in /repo e6d801d).  The collision needs la = 8*c + i - 2m (c = cell of the string, i = character offset), so the
+# family scans the padding N allocated between the string and the two lists (la grows by 2 per N) over a range wide enough for any
+# plausible heap base: self-calibrating, no address is assumed.  Sj is the suffix I+D of the string whose suffix I is Si; the string has
+# pairwise different characters, so Si and Sj differ for every D > 0 and every answer must be the empty list.
+TABU_S = "".join(chr(c) for c in range(35, 127) if chr(c) not in '"\\`')
+TABU_KEY = "tabu-collision:lis-cells-vs-pstr-byte-offsets"
+TABU_CONSULT = """
+:- use_module(library(lists)).
+:- use_module(library(between)).
+c13suf(S, I, Si) :- length(P, I), append(P, Si, S).
+c13eqx(x).
+c13tabu(N, Hits) :-
+  S = "%s",
+  length(Pad, N),
+  length(La, 8), length(Lb, 8), maplist(c13eqx, La), maplist(c13eqx, Lb),
+  findall(I-D, (between(0,60,I), between(10,26,D), J is I+D, c13suf(S,I,Si), c13suf(S,J,Sj), compare(=, f(La,Si), f(Lb,Sj))), Hits),
+  Pad = Pad.
+c13tabe(N, Hits) :-
+  S = "%s",
+  length(Pad, N),
+  length(La, 8), length(Lb, 8), maplist(c13eqx, La), maplist(c13eqx, Lb),
+  findall(I-D, (between(0,60,I), between(10,26,D), J is I+D, c13suf(S,I,Si), c13suf(S,J,Sj), f(La,Si) == f(Lb,Sj)), Hits),
+  Pad = Pad.
+""" % (TABU_S, TABU_S)
+
+
+def tabu_scan(ctx, failures, tie_breaks, dist):
+    """every answer must be H = []; -> number of (query, offset pair) evaluations"""
+    step, top = ctx.scale((16, 48000), (4, 100000))       # a collision shows for ~37 consecutive paddings
+    ns = list(range(0, top, step))
+    per_job = 40
+    jobs = []
+    for k in range(0, len(ns), per_job):
+        qs = []
+        for n in ns[k:k + per_job]:
+            qs += ["c13tabu(%d, H)." % n, "c13tabe(%d, H)." % n]
+        jobs.append({"id": "t%d" % k, "consult": TABU_CONSULT, "queries": qs, "timeout_ms": 60000, "fresh": True})
+    res = core.vrun_query(ctx.prop, jobs, tag="tabu")
+    hits, answered, broken = [], 0, []
+    for k in range(0, len(ns), per_job):
+        rec = res.get("t%d" % k) or {}
+        rs = rec.get("results")
+        chunk = ns[k:k + per_job]
+        if not isinstance(rs, list) or len(rs) != 2 * len(chunk):
+            broken.append(("t%d" % k, json.dumps(rec)[:300]))
+            continue
+        for j, a in enumerate(rs):
+            n, pred = chunk[j // 2], ("c13tabu", "c13tabe")[j % 2]
+            h = a[0]["b"].get("H") if a and isinstance(a[0], dict) and "b" in a[0] else None
+            if h is None or "l" not in h:
+                broken.append(("%s(%d, H)." % (pred, n), json.dumps(a)[:300]))
+                continue
+            answered += 1
+            if h["l"]:
+                hits.append((pred, n, h["l"]))
+    for q, text in broken[:3]:
+        tie_breaks.append({"kind": "harness", "what": "a query of the visited-set collision scan gave no answer list", "detail": {"query": q, "answer": text}})
+    dist["tabu_scan"] = {"paddings": "0..%d step %d" % (top, step), "queries_answered": answered, "offset_pairs_per_query": 61 * 17,
+                         "queries_with_wrong_answers": len(hits), "paddings_with_wrong_answers": sorted({n for _, n, _ in hits})[:40]}
+    if hits:
+        pred, n, l = hits[0]
+        pairs = ["%s-%s" % (x["c"][1].get("i"), x["c"][2].get("i")) for x in l if "c" in x][:12]
+        op = "compare(=, f(La,Si), f(Lb,Sj))" if pred == "c13tabu" else "f(La,Si) == f(Lb,Sj)"
+        failures.append({"key": TABU_KEY,
+                         "what": ("%s succeeds although Si and Sj are different suffixes (character offsets I and I+D) of one string with pairwise different characters: "
+                                  "the string pair is skipped as already visited because its byte offsets equal the cell indices of an equal list pair compared just before "
+                                  "(%d of %d scan queries affected)" % (op, len(hits), answered)),
+                         "input": "fresh machine; consult: %s query: %s(%d, H)." % (TABU_CONSULT, pred, n),
+                         "impl": "H = [%s%s]  (I-D pairs)" % (",".join(pairs), ",..." if len(l) > len(pairs) else ""), "spec": "H = []", "property_fails": True})
+    return answered * 61 * 17
+
+
 def run(ctx):
     import re
     rng = ctx.rng
@@ -640,11 +718,12 @@ def run(ctx):
         seen_keys.add(key)
         failures.append({"key": key, "what": what, "input": texts[idx], "representations": reprs(g["kinds"]), "path": "compiled" if compiled_of(idx) else "metacall",
                          "impl": "".join(obs[:9]) + " " + "".join(obs[9:15]), "spec": spec, "property_fails": True})
+    tabu_evals = tabu_scan(ctx, failures, tie_breaks, dist)
     samples = []
     for (idx, obs, ct, cr) in bmeta[:: max(1, len(bmeta) // 8)][:8]:
         samples.append({"query": texts[idx][:400], "impl": "".join(obs[:9]) + " " + "".join(obs[9:15]) + " vars " + "".join(obs[15:18])})
     return {
-        "evaluations": len(bools) * 24,
+        "evaluations": len(bools) * 24 + tabu_evals,
         "distinct_nontrivial": len(nontrivial),
         "rule": ("each case = a triple of terms (pool of every category x every heap representation; T2, T3 are mutations of T1/T2 so that most pairs "
                  "fall in the same category) built in one query (meta-call under findall/3, or a consulted clause for every third batch); observed: compare/3 for the "
@@ -655,7 +734,11 @@ def run(ctx):
                  "(string literal / suffix / atom_chars -> PStr segment(s), NUL characters as cons cells; partial_string/3 -> PStr with the bound tail; "
                  "'.'(H,T), =.., [..|..] -> Lis cells; other compounds -> Str), after checking in Coq that each representation is well-formed, free of Str-'.'/2 "
                  "and denotes the case's term (= 9 more evaluations per case; %d distinct ordered pairs of different representations with a Lis/PStr/Str cell on top)"
-                 % len(rnontrivial)),
+                 % len(rnontrivial)
+                 + ". Visited-set family: on fresh machines, for every padding N of a scan (see distribution.tabu_scan) two equal 8-element lists are "
+                 "allocated N cons cells after an 89-character string of pairwise different characters, and f(La,Si) / f(Lb,Sj) are compared by compare/3 and == for all "
+                 "suffix offsets I in 0..60 and J = I+10..I+26: never equal (a visited-set key shared by a list pair and a string pair would make them equal; the scan "
+                 "covers every alignment of list cell indices against string byte offsets for heap bases up to ~%d cells)" % (ctx.scale(48000, 100000) * 2 // 7)),
         "samples": samples,
         "distribution": dist,
         "failures": failures,
